@@ -10,6 +10,7 @@ proved here is stated exactly.
 import SmppVerif.Lemmas.Ledger
 import SmppVerif.Lemmas.History
 import SmppVerif.Lemmas.SegHistory
+import SmppVerif.Gen.Site
 
 namespace SmppVerif.Props.C01
 open SmppVerif SmppVerif.Corr SmppVerif.Lemmas.Corr SmppVerif.Lemmas.Expiry SmppVerif.Lemmas.Ledger
@@ -308,6 +309,12 @@ example :
         [.placeholder, .placeholder, .msg { (r 2 8) with logId := 7 }] := by
   decide +kernel
 
+/-- tie to the source (Gen/Site.lean): `_send_data` stores the request only after the PDU was written and drained (a failed
+    transmission leaves nothing in the correlator), and `put` sweeps before it stores -/
+theorem send_and_put_step_order :
+    Gen.Site.sendData.filter (fun x => x ∈ ["write", "drain", "put"]) = ["write", "drain", "put"] ∧
+    Gen.Site.corrPut = ["_remove_expired", "monotonic", "set:_store"] := by decide
+
 end SmppVerif.Props.C01
 
 #print axioms SmppVerif.Props.C01.plain_response_outcome
@@ -322,3 +329,4 @@ end SmppVerif.Props.C01
 #print axioms SmppVerif.Props.C01.no_outcome_for_unknown_log_id
 #print axioms SmppVerif.Props.C01.segmented_message_exactly_once
 #print axioms SmppVerif.Props.C01.Example.weave
+#print axioms SmppVerif.Props.C01.send_and_put_step_order
